@@ -284,12 +284,14 @@ const Prelude = `(set-option :produce-models true)
 (declare-fun str_lt (Str Str) Bool)
 (declare-fun str_from_rune (Int) Str)
 (declare-fun rune_count (Str) Int)
+(assert (forall ((s Str)) (! (and (>= (rune_count s) 0) (<= (rune_count s) (str_len s))) :pattern ((rune_count s)))))
 (declare-const str_empty Str)
 (assert (= (str_len str_empty) 0))
 (declare-fun birth (Int) Int)
 (assert (= (birth 0) (- 1)))
 (declare-fun perexec (Int) Bool)
 (assert (perexec 0))
+(declare-fun tyof (Int) Int)
 (declare-fun dyn_type (Int) Int)
 (assert (= (dyn_type 0) 0))
 (define-fun wrap64 ((x Int)) Int (ite (> x 9223372036854775807) (- x 18446744073709551616) (ite (< x (- 9223372036854775808)) (+ x 18446744073709551616) x)))
